@@ -170,78 +170,118 @@ def run(ctx):
     run_provenance(ctx)
 
 
+def release_counts(b, rel_blocks):
+    """forward dataflow: the set of possible numbers of releases (capped at 2) performed on the paths from the entry
+    to each block's end"""
+    cfg = b.cfg
+    out = {}
+    work = [0]
+    inn = {0: {0}}
+    while work:
+        x = work.pop()
+        cur = {min(2, n + rel_blocks.get(x, 0)) for n in inn.get(x, set())}
+        if out.get(x) == cur:
+            continue
+        out[x] = cur
+        for s2 in cfg.succ[x]:
+            before = inn.get(s2, set())
+            if not cur <= before:
+                inn[s2] = before | cur
+                work.append(s2)
+            elif s2 not in out:
+                work.append(s2)
+    return out
+
+
 def check_release(ctx, prog, rem, r):
     b = rem.body
     rel = calls_to(prog, rem, r['release'])
     line = rem.line
-    if len(rel) != 1:
-        ctx.add('POOL', rem, 'release-once', 'violation', 'the removal contains %d release call sites; exactly one is expected (one slot leaves the tree per removal)' % len(rel), PROPS_POOL, line)
+    if not rel:
+        ctx.add('POOL', rem, 'release-once', 'violation', 'the removal contains no release call site; exactly one release is expected on every path (one slot leaves the tree per removal)', PROPS_POOL, line)
         return
-    c = rel[0]
-    line = span_line(c, rem.line)
-    blk = c.point[0]
+    line = span_line(rel[0], rem.line)
     problems = []
-    if not all(b.cfg.dominates(blk, ret) for ret in b.cfg.returns):
-        problems.append('some path through the removal returns without releasing a slot')
-    if in_loop(b, blk):
-        problems.append('the release is inside a loop: a slot may be released more than once')
-    # it is the last act: no other call and no store after it
-    after = b.cfg.reachable_from(blk) - {blk}
-    later = [x for x in b.calls if x is not c and (x.point[0] in after or (x.point[0] == blk and x.point > c.point))]
-    if later:
-        problems.append('state is still changed after the slot was released (%s)' % later[0].callee_name())
-    # the released slot: the parameter, or the successor found below the parameter on the two-children path
-    arg = strip(c.args[1])
-    vals = arg.args if arg.kind == 'phi' else [arg]
-    kinds = []
-    for v in vals:
-        v = strip(v)
-        if v.kind == 'param':
-            kinds.append('param')
-        else:
-            ats = origins(prog, rem, v)
-            if ats and all(a[0] == 'link' or a[0] == 'param' for a in ats):
-                kinds.append('successor')
+    per_block = {}
+    for c in rel:
+        per_block[c.point[0]] = per_block.get(c.point[0], 0) + 1
+        if in_loop(b, c.point[0]):
+            problems.append('the release is inside a loop: a slot may be released more than once')
+    counts = release_counts(b, per_block)
+    for ret in b.cfg.returns:
+        cs = counts.get(ret, set())
+        if 0 in cs:
+            problems.append('some path through the removal returns without releasing a slot')
+        if 2 in cs:
+            problems.append('some path through the removal releases more than one slot (the removal contains %d release call sites)' % len(rel))
+    problems = sorted(set(problems))
+    all_kinds = []
+    for c in rel:
+        blk = c.point[0]
+        # it is the last act: no other call and no store after it
+        after = b.cfg.reachable_from(blk) - {blk}
+        later = [x for x in b.calls if x is not c and x not in rel and (x.point[0] in after or (x.point[0] == blk and x.point > c.point))]
+        if later:
+            problems.append('state is still changed after the slot was released (%s)' % later[0].callee_name())
+        # the released slot: the parameter, or the successor found below the parameter on the two-children path
+        arg = strip(c.args[1])
+        vals = arg.args if arg.kind == 'phi' else [arg]
+        kinds = []
+        for v in vals:
+            v = strip(v)
+            if v.kind == 'param':
+                kinds.append('param')
             else:
-                kinds.append('other:' + ','.join(sorted(atom_str(a) for a in ats)))
-    if any(k.startswith('other') for k in kinds) or 'param' not in kinds:
-        problems.append('released slot is %s, expected the removed index or its in-order successor' % kinds)
-    # if the removal moves a payload from another slot into the removed one, that other slot is the one that leaves
-    # the tree on that path and must be the released one
-    for st in b.stores:
-        a = prog.accessor_call(strip(st.root))
-        if a is None:
-            continue
-        f = st.fields()
-        if f and f[0] not in LINKS and f[0] != 'color' and strip(a[2]).kind == 'param':
-            srcs = []
-            for x in walk(st.value):
-                nf = prog.node_field(x) if x.kind in ('load', 'ref') else None
-                if nf and nf[1] and nf[1][0] not in LINKS and nf[1][0] != 'color':
-                    srcs.append(strip(nf[0]))
-            if srcs and not any(any(sv is strip(v) for v in vals) for sv in srcs):
-                problems.append('a payload is moved out of slot %s into the removed slot, but the slot released is %s: the slot that now holds the moved payload is freed while in use' % (show(srcs[0], 2), '/'.join(kinds)))
-    # on the successor path the payload of the successor must have been moved into the removed slot
-    if 'successor' in kinds:
-        succ_vals = [strip(v) for v in vals if strip(v).kind != 'param']
-        moved = False
+                ats = origins(prog, rem, v)
+                if ats and all(a[0] == 'link' or a[0] == 'param' for a in ats):
+                    kinds.append('successor')
+                else:
+                    kinds.append('other:' + ','.join(sorted(atom_str(a) for a in ats)))
+        all_kinds += kinds
+        if any(k.startswith('other') for k in kinds):
+            problems.append('released slot is %s, expected the removed index or its in-order successor' % kinds)
+        # if the removal moves a payload from another slot into the removed one, that other slot is the one that leaves
+        # the tree on that path and must be the released one
         for st in b.stores:
             a = prog.accessor_call(strip(st.root))
             if a is None:
                 continue
             f = st.fields()
             if f and f[0] not in LINKS and f[0] != 'color' and strip(a[2]).kind == 'param':
-                # source: payload of the successor slot
+                if not (st.point[0] == blk or blk in b.cfg.reachable_from(st.point[0])):
+                    continue
+                srcs = []
                 for x in walk(st.value):
                     nf = prog.node_field(x) if x.kind in ('load', 'ref') else None
-                    if nf and nf[1] and nf[1][0] not in LINKS and nf[1][0] != 'color' and any(strip(nf[0]) is sv for sv in succ_vals):
-                        moved = True
-        if not moved:
-            problems.append('the successor slot is released but its payload was not moved into the removed slot')
+                    if nf and nf[1] and nf[1][0] not in LINKS and nf[1][0] != 'color':
+                        srcs.append(strip(nf[0]))
+                if srcs and not any(any(sv is strip(v) for v in vals) for sv in srcs):
+                    problems.append('a payload is moved out of slot %s into the removed slot, but the slot released is %s: the slot that now holds the moved payload is freed while in use' % (show(srcs[0], 2), '/'.join(kinds)))
+        # on the successor path the payload of the successor must have been moved into the removed slot
+        if 'successor' in kinds:
+            succ_vals = [strip(v) for v in vals if strip(v).kind != 'param']
+            moved = False
+            for st in b.stores:
+                a = prog.accessor_call(strip(st.root))
+                if a is None:
+                    continue
+                f = st.fields()
+                if f and f[0] not in LINKS and f[0] != 'color' and strip(a[2]).kind == 'param':
+                    # source: payload of the successor slot
+                    for x in walk(st.value):
+                        nf = prog.node_field(x) if x.kind in ('load', 'ref') else None
+                        if nf and nf[1] and nf[1][0] not in LINKS and nf[1][0] != 'color' and any(strip(nf[0]) is sv for sv in succ_vals):
+                            moved = True
+            if not moved:
+                problems.append('the successor slot is released but its payload was not moved into the removed slot')
+    if 'param' not in all_kinds:
+        problems.append('released slot is %s, expected the removed index or its in-order successor' % all_kinds)
+    kinds = sorted(set(all_kinds))
+    problems = list(dict.fromkeys(problems))
     if problems:
-        ctx.add('POOL', rem, 'release-once', 'violation', '; '.join(problems), PROPS_POOL, line, {'released': kinds})
+        ctx.add('POOL', rem, 'release-once', 'violation', '; '.join(problems[:4]), PROPS_POOL, line, {'released': kinds, 'release_sites': len(rel)})
     else:
-        ctx.add('POOL', rem, 'release-once', 'ok', 'exactly one release on every path, of the unlinked slot, as the last act of the removal', PROPS_POOL, line, {'released': kinds})
+        ctx.add('POOL', rem, 'release-once', 'ok', 'exactly one release on every path (%d call site%s), of the unlinked slot, as the last act of the removal' % (len(rel), '' if len(rel) == 1 else 's'), PROPS_POOL, line, {'released': kinds, 'release_sites': len(rel)})
 
 
 def node_field_names(prog, tree):
@@ -250,6 +290,19 @@ def node_field_names(prog, tree):
         if n.split('::')[0] == fam:
             return [f['name'] for f in prog.adts[n]['variants'][0]['fields']]
     return []
+
+
+def on_every_path_after(b, c, site):
+    """the site lies on every path from the call c to a return"""
+    cb, sb = c.point[0], site.point[0]
+    if cb == sb:
+        return site.point > c.point
+    for ret in b.cfg.returns:
+        if ret == sb:
+            continue
+        if ret == cb or b.cfg.paths_avoiding(cb, ret, {sb}):
+            return False
+    return True
 
 
 def check_alloc(ctx, prog, tree, f, r, tree_fns):
@@ -279,7 +332,7 @@ def check_alloc(ctx, prog, tree, f, r, tree_fns):
         written = set()
         wr = writes_to(prog, f, c)
         for (flds, vd, site, vv) in wr:
-            if flds and all(b.cfg.dominates(site.point[0], ret) for ret in b.cfg.returns):
+            if flds and on_every_path_after(b, c, site):
                 written.add(flds[0])
         missing = fields - written
         problems = []
@@ -305,7 +358,7 @@ def check_alloc(ctx, prog, tree, f, r, tree_fns):
                 for (tgt, flds, vd, site, vv) in node_writes(prog, caller):
                     if flds not in (('left',), ('right',)) or vv is None or strip(vv) is not call:
                         continue
-                    if not all(cb.cfg.dominates(site.point[0], ret) for ret in cb.cfg.returns):
+                    if not on_every_path_after(cb, call, site):
                         continue
                     # under the node recorded as parent
                     if parent_src is not None and parent_src.kind == 'param':
@@ -361,8 +414,25 @@ def check_alloc_fn(ctx, prog, a, r):
                 tr = edge_truth(t, succ)
                 if tr is not None and (tr != neg) and b.cfg.pred[succ] == [s] and b.cfg.dominates(succ, g.point[0]):
                     ok = True
-        if d.kind == 'bin' and d.args[0] in ('Eq',) and any(strip(x).kind == 'call' and strip(x).callee_name() == 'len' for x in d.args[1:]):
-            ok = ok or True
+        from rules.gate import edge_truth
+        t = b.mir['blocks'][s]['term']
+        if d.kind == 'bin' and d.args[0] in ('Eq', 'Ne'):
+            xs = [strip(x) for x in d.args[1:]]
+            ln = [x for x in xs if x.kind == 'call' and x.callee_name() == 'len' and vec_field_of(prog, x.args[0]) == r['free']]
+            if ln and any(x.is_const(0) for x in xs):
+                want = (d.args[0] == 'Eq') != neg
+                for succ in b.cfg.succ[s]:
+                    tr = edge_truth(t, succ)
+                    if tr is not None and tr == want and b.cfg.pred[succ] == [s] and b.cfg.dominates(succ, g.point[0]):
+                        ok = True
+        # "pop() returned None": the free list was empty at that moment and the failed pop changed nothing
+        if d.kind == 'discr' and not neg:
+            pv = strip(d.args[0])
+            if pv.kind == 'call' and pv.callee_name() == 'pop' and vec_field_of(prog, pv.args[0]) == r['free']:
+                for succ in b.cfg.succ[s]:
+                    tr = edge_truth(t, succ)
+                    if tr is False and b.cfg.pred[succ] == [s] and b.cfg.dominates(succ, g.point[0]):
+                        ok = True
     # growth amount: derived from the free list's capacity or a constant (bounded by the current size)
     amount = strip(g.args[1]) if len(g.args) > 1 else None
     amt_ok = amount is not None and (amount.kind == 'const' or (amount.kind == 'call' and amount.callee_name() in ('capacity', 'len') and vec_field_of(prog, amount.args[0]) in (r['free'], r['nodes'])))
@@ -488,16 +558,78 @@ def check_clear(ctx, prog, c, r, store_field):
     # the scan: an index range over the tail of the free list [len - n, len), n = number released in the previous pass
     loops = b.cfg.loops()
     outer = [h for h, body in loops.items() if all(cr[0].point[0] in body for cr in child_rel)]
-    if child_rel and len(outer) < 2:
-        problems.append('children are not released in a pass-by-pass loop')
     if child_rel:
-        counter_ok = check_clear_counter(prog, c, child_rel, r)
-        if counter_ok:
-            problems.append(counter_ok)
+        # coverage of the scan: idiom A (pass by pass, counting the releases of the previous pass) or idiom B (one cursor
+        # running over the tail of the free list, which doubles as the breadth-first queue)
+        why_a = None
+        if len(outer) < 2:
+            why_a = 'children are not released in a pass-by-pass loop'
+        else:
+            why_a = check_clear_counter(prog, c, child_rel, r)
+        if why_a:
+            why_b = check_clear_cursor(prog, c, child_rel, r, root_rel, outer)
+            if why_b:
+                problems.append('%s; nor is it a single cursor over the tail of the free list: %s' % (why_a, why_b))
     if problems:
         ctx.add('POOL', c, 'clear-returns-all', 'violation', '; '.join(problems), PROPS_POOL + ['C12'], line)
     else:
         ctx.add('POOL', c, 'clear-returns-all', 'ok', 'clear releases the root and then, pass by pass, exactly the non-empty children of the slots released in the previous pass', PROPS_POOL + ['C12'], line)
+
+
+def check_clear_cursor(prog, c, child_rel, r, root_rel, loops_containing):
+    """idiom B: cursor starts at the free list's length before the root is released, advances by one per visited
+    element, and the loop runs while cursor < len (re-read)"""
+    b = c.body
+    cfg = b.cfg
+    if not loops_containing or not root_rel:
+        return 'no loop around the child releases'
+    loops = cfg.loops()
+    h = sorted(loops_containing, key=lambda x: len(loops[x]))[0]
+    body = loops[h]
+    # the slot visited: element of the free list at the cursor
+    nf = prog.node_field(strip(child_rel[0][2]))
+    elem = strip(nf[0])
+    idx_call = None
+    for x in walk(elem):
+        if x.kind == 'call' and x.callee_name() in ('index', 'index_mut', 'get_unchecked') and len(x.args) == 2 and (vec_field_of(prog, x.args[0]) or ())[-1:] == r['free'][-1:]:
+            idx_call = x
+    if idx_call is None:
+        return 'visited slots are not read from the free list'
+    cur = strip(idx_call.args[1])
+    if cur.kind != 'phi' or cur.extra['block'] != h:
+        return 'the position read is not a loop-carried cursor'
+    inits = [strip(a) for a, p in zip(cur.args, cur.extra['preds']) if p not in body]
+    steps = [strip(a) for a, p in zip(cur.args, cur.extra['preds']) if p in body]
+    rr = root_rel[0]
+    for i0 in inits:
+        if not (i0.kind == 'call' and i0.callee_name() == 'len' and (vec_field_of(prog, i0.args[0]) or ())[-1:] == r['free'][-1:]):
+            return 'the cursor does not start at the length of the free list'
+        if not (i0.point < rr.point and cfg.dominates(i0.point[0], rr.point[0])):
+            return 'the cursor starts behind the root\'s entry (the root\'s children are never visited)'
+    for s1 in steps:
+        v = s1
+        if v.kind == 'load' and v.fields() == ('0',):
+            v = strip(v.args[0])
+        if not (v.kind == 'bin' and v.args[0].startswith('Add') and strip(v.args[1]) is cur and strip(v.args[2]).is_const(1)):
+            return 'the cursor does not advance by exactly one per visited slot'
+    # guard: cursor < len(free) re-read inside the loop; the only exit
+    g = None
+    for blk in body:
+        d = b.switch_discr.get(blk)
+        if d is None:
+            continue
+        d = strip(d)
+        if d.kind == 'bin' and d.args[0] in ('Lt', 'Gt'):
+            x, y = strip(d.args[1]), strip(d.args[2])
+            small, big = (x, y) if d.args[0] == 'Lt' else (y, x)
+            if small is cur and big.kind == 'call' and big.callee_name() == 'len' and (vec_field_of(prog, big.args[0]) or ())[-1:] == r['free'][-1:] and big.point[0] in body:
+                g = blk
+    if g is None:
+        return 'the loop does not run while cursor < free_list.len() (length re-read in every round)'
+    exits = [x for x in body for s2 in cfg.succ[x] if s2 not in body and s2 in cfg.can_return]
+    if any(x != g for x in exits):
+        return 'the scan can be left before the cursor reaches the end of the free list'
+    return None
 
 
 def check_clear_counter(prog, c, child_rel, r):
